@@ -8,7 +8,10 @@ package main
 //   calc  one parameter set, CalculateBaseFee evaluated for a list of stored
 //         gas figures (the main one and its neighbours, ascending);
 //   gas   EndBlock's stored figure for (gasWanted, gasUsed, MinGasMultiplier);
-//   seq   a block sequence: BeginBlock / EndBlock per block.
+//   seq   a block sequence: BeginBlock / EndBlock per block;
+//   real  a block sequence on a fresh application with a finite consensus
+//         MaxGas, the gas figure produced by real signed transactions delivered
+//         through BaseApp (feemarket_real.go).
 //
 // The oracle evaluates the property text with big.Int / big.Rat, independently
 // of the Coq model: the EIP-1559 formula, the floor, monotonicity along the
@@ -52,22 +55,23 @@ type fmParams struct {
 }
 
 type fmBlock struct {
-	Height int64  `json:"h"`
-	MaxGas *int64 `json:"max_gas"` // nil = no consensus params in the context
-	Wanted string `json:"wanted"`  // transient gas wanted (uint64)
-	Used   string `json:"used"`    // block gas meter reading (uint64)
+	Height int64   `json:"h,omitempty"`
+	MaxGas *int64  `json:"max_gas,omitempty"` // seq: nil = no consensus params in the context
+	Wanted string  `json:"wanted,omitempty"`  // seq: transient gas wanted (uint64)
+	Used   string  `json:"used,omitempty"`    // seq: block gas meter reading (uint64)
+	Txs    []fmRTx `json:"txs,omitempty"`     // real: the transactions delivered in the block (feemarket_real.go)
 }
 
 type fmInput struct {
-	Kind   string    `json:"kind"` // calc | gas | seq
+	Kind   string    `json:"kind"` // calc | gas | seq | real
 	P      fmParams  `json:"p"`
 	Height int64     `json:"h,omitempty"`
 	MaxGas *int64    `json:"max_gas"`
 	G      []string  `json:"g,omitempty"`      // calc: stored gas figures, ascending
 	Wanted string    `json:"wanted,omitempty"` // gas
 	Used   string    `json:"used,omitempty"`   // gas
-	G0     string    `json:"g0,omitempty"`     // seq: initially stored gas figure
-	Blocks []fmBlock `json:"blocks,omitempty"` // seq
+	G0     string    `json:"g0,omitempty"`     // seq, real: initially stored gas figure
+	Blocks []fmBlock `json:"blocks,omitempty"` // seq, real
 }
 
 func mustBig(s string) *big.Int {
@@ -556,6 +560,8 @@ func fmRun(id string, in fmInput) []Case {
 		return fmRunGas(id, in)
 	case "seq":
 		return fmRunSeq(id, in)
+	case "real":
+		return fmRunReal(id, in)
 	}
 	return []Case{{ID: id, Kind: in.Kind, Input: in, OracleOK: false, OracleMsg: "harness: unknown kind", Key: id}}
 }
@@ -938,6 +944,8 @@ func feemarketDriver(cfg Config, out *Out) error {
 			in = fmGenCalc(cr)
 		case k < 18:
 			in = fmGenGas(cr)
+		case k == 19 && (cfg.Tier != "thorough" || (i/20)%4 == 0):
+			in = fmGenReal(cr)
 		default:
 			in = fmGenSeq(cr)
 		}
